@@ -658,7 +658,7 @@ class History(Entry):
         if round == 0:
             for dl in DELIMS:
                 cs += adversarial(r, dl is not None, dl)
-        n = ctx.n(120, 1200) if round == 0 else ctx.n(60, 200)
+        n = ctx.n(120, 900) if round == 0 else ctx.n(60, 200)
         for i in range(n):
             cs.append(random_history(r, 8 if ctx.quick() else (40 if i % 8 == 0 else 14)))
         return cs
@@ -900,6 +900,17 @@ class Witness(History):
         return []
 
 
+def coqchk_step(ctx):
+    import subprocess
+    cmd = ["timeout", "1200", "coqchk", "-silent", "-o", "-Q", os.path.join(core.COQDIR, "theories"), "EsVerif", "EsVerif.C03.Properties"]
+    r = subprocess.run(cmd, stdout=subprocess.PIPE, stderr=subprocess.STDOUT, text=True, cwd=core.COQDIR)
+    ok = r.returncode == 0 and "Axioms: <none>" in r.stdout
+    ctx.checker_cmds.append("coqchk -silent -o -Q coq/theories EsVerif EsVerif.C03.Properties")
+    ctx.obligation("coqchk -o EsVerif.C03.Properties: exit 0, Axioms: <none>", ok, r.stdout[-400:])
+    if not ok:
+        ctx.violation("coqchk rejects C03/Properties.vo or reports axioms", {"kind": "coqchk", "log_tail": r.stdout[-2000:]}, found_input=False)
+
+
 ENTRIES = [Witness("witness_append_missing"), Witness("witness_incompatible_binary_append"), Witness("witness_read_while_open"),
            History()]
 
@@ -931,12 +942,23 @@ def run(ctx, replay=None):
     _TMP[0] = os.path.join(ctx.work, "files")
     if core.proof_step(ctx, "C03", core.ALLOW_DISCRETE) and replay is None:
         source_tie(ctx)
+        if not ctx.quick():
+            coqchk_step(ctx)
     # histories are long terms: evaluate them in small shards, in parallel (the shard size of
     # runner.run_entry is not a parameter; it is narrowed for this process only)
     orig = core.coq_eval
 
     def small_shards(workdir, preamble, terms, ty="Z", shard=400, **kw):
-        return orig(workdir, preamble, terms, ty=ty, shard=min(shard, ctx.n(10, 24)), **kw)
+        n = min(shard, ctx.n(10, 12))
+        try:
+            return orig(workdir, preamble, terms, ty=ty, shard=n, **kw)
+        except core.CoqEvalError as e:
+            # a coqc that dies without any message was killed (memory pressure on a shared machine, timeout):
+            # evaluate once more in smaller shards; a genuine error in a case file has a message and is re-raised
+            if e.text.strip():
+                raise
+            ctx.notes.append("a case shard was killed without output; re-evaluated in shards of %d" % max(2, n // 3))
+            return orig(workdir + "_retry", preamble, terms, ty=ty, shard=max(2, n // 3), **kw)
     core.coq_eval = small_shards
     try:
         differential(ctx, PRE, ENTRIES, replay)
